@@ -71,10 +71,11 @@ def gen(shard, tier):
         seq = shard['pre'] + ''.join(t)
         if shard['kind'] == 'static':
             for ri in range(len(RULES)):
-                for pre in (None, 'n', 'c', 0, n - 1):
-                    if pre == n - 1 and n == 1:
+                # 'same0' / 'samelast': that residue already carries the first modification of the first rule itself
+                for pre in (None, 'n', 'c', 0, n - 1, 'same0', 'samelast'):
+                    if pre in (n - 1, 'samelast') and n == 1:
                         continue
-                    if tier != 'thorough' and len(RULES[ri]) > 1 and pre not in (None, 0):
+                    if tier != 'thorough' and len(RULES[ri]) > 1 and pre not in (None, 0, 'same0'):
                         continue
                     yield {'kind': 'static', 'seq': seq, 'rule': ri, 'pre': pre}, 1 + (pre is not None), True
         else:
@@ -94,6 +95,9 @@ def build(case):
         P['nterm'] = [['Acetyl', 1]]
     elif pre == 'c':
         P['cterm'] = [['Methyl', 1]]
+    elif pre in ('same0', 'samelast'):
+        own = RULES[case['rule']][0]['mods'][0]
+        P['res'] = [[0 if pre == 'same0' else n - 1, [[own[0], own[1]]]]]
     elif pre is not None:
         P['res'] = [[int(pre), [['1.5', 1]]]]
     return P
